@@ -32,19 +32,30 @@ Definition kind_of_ref (r : str) : skind :=
   else if str_eqb r (b "int") then KInt
   else if str_eqb r (b "float64") then KFloat
   else if str_eqb r (b "bool") then KBoolean
-  else if str_eqb r (b "map[string]interface{}") || str_eqb r (b "interface{}") then KAny
+  else if str_eqb r (b "map[string]interface{}") then KAny
   else KStr.   (* the harness binds scalars to string-kinded types *)
+
+Fixpoint put_obj (fs : list (str * jval)) (k : str) (v : jval) : list (str * jval) :=
+  match fs with
+  | [] => [(k, v)]
+  | (k', x) :: r => if str_eqb k' k then (k, v) :: r else (k', x) :: put_obj r k v
+  end.
 
 Definition decode_scalar (k : skind) (j : jval) (cur : gval) : res gval :=
   match j with
-  | JNull => Ok cur
+  | JNull => match k with KAny => Ok VZero | _ => Ok cur end   (* null empties a map / interface{}, leaves other kinds alone *)
   | _ =>
       match k, j with
       | KStr, JStr _ => Ok (VScalar j)
       | KInt, JNum _ true => Ok (VScalar j)
       | KFloat, JNum _ _ => Ok (VScalar j)
       | KBoolean, JBool _ => Ok (VScalar j)
-      | KAny, JObj _ => Ok (VScalar j)
+      | KAny, JObj nw =>
+          (* a non-nil map is reused: existing entries stay, keys of the new object overwrite *)
+          match cur with
+          | VScalar (JObj old) => Ok (VScalar (JObj (fold_left (fun acc kv => put_obj acc (fst kv) (snd kv)) nw old)))
+          | _ => Ok (VScalar (JObj (fold_left (fun acc kv => put_obj acc (fst kv) (snd kv)) nw [])))
+          end
       | KStr, _ => Err (b "decode:not-a-string")
       | KInt, _ => Err (b "decode:not-an-int")
       | KFloat, _ => Err (b "decode:not-a-number")
